@@ -196,14 +196,14 @@ type refRecvCfg struct {
 }
 
 type refRecvResult struct {
-	Stats   []*types.Stat
-	EndSeen int // number of end markers
-	Data    map[uint32][]byte
-	Term    map[uint32]int
-	Order   []string
-	FinEcho bool
-	Err     string
-	AfterFin int // packets after FIN echo
+	Stats         []*types.Stat
+	EndSeen       int // number of end markers
+	Data          map[uint32][]byte
+	Term          map[uint32]int
+	Order         []string
+	FinEcho       bool
+	Err           string
+	AfterFin      int // packets after FIN echo
 	DataBeforeReq int
 }
 
